@@ -7,6 +7,7 @@ CONSTANTS
   CondVals = {0, 1}
   Arity = 3
   Defect_TieBreakByPartialCmp = FALSE
+  Defect_NoopModifyUnchecked = FALSE
 INVARIANTS
   C32_Commutative
   C32_Associative
